@@ -282,9 +282,9 @@ def rule_r4(repo, tier):
     dirty_over = {
         'nbits_offset': 7, 'scale_offset': -3, 'nbits_of_new_refval': 9, 'new_refvals': {1001: 5},
         'nbits_of_associated': [4, 2], 'nbits_of_skipped_local_descriptor': 0, 'new_nbytes': 3,
-        'data_not_present_count': 0, 'status_qa_info_follows': 0, 'bitmap': [0, 1], 'bitmapped_descriptors': [(0, 'd')],
+        'data_not_present_count': 0, 'status_qa_info_follows': 0, 'bitmap': [0, 1], 'bitmapped_descriptors': [(0, 'd')],     # (a consistent bitmap state: two back references, the first selected)
         'bitmap_definition_state': 0, 'most_recent_bitmap_is_for_reuse': True, 'n_031031': 2,
-        'back_reference_boundary': 99, 'back_referenced_descriptors': [(0, 'd')],
+        'back_reference_boundary': 99, 'back_referenced_descriptors': [(0, 'd'), (1, 'e')],
     }
     n_cases = 0
     for reuse in (True, False):
@@ -582,16 +582,18 @@ class ReaderInterp(Interp):
 def rule_r7(repo):
     rr = RuleResult('C01.R7', 'missing rule: all ones of a field wider than one bit; read kinds per primitive')
     table = repo.const('constants', 'NUMERIC_MISSING_VALUES')
-    rr.instance('constants.NUMERIC_MISSING_VALUES folds to 2**i - 1, i = 0..64')
-    if not (isinstance(table, list) and table == [2 ** i - 1 for i in range(65)]):
+    rr.instance('constants.NUMERIC_MISSING_VALUES folds to 2**i - 1 for every width it covers (at least 0..64)')
+    if not (isinstance(table, list) and len(table) >= 65 and table == [2 ** i - 1 for i in range(len(table))]):
         rr.fail('constants.NUMERIC_MISSING_VALUES', 'pybufrkit/constants.py',
-                'NUMERIC_MISSING_VALUES does not fold to [2**i - 1 for i in 0..64]: %s' % _short(table))
+                'NUMERIC_MISSING_VALUES does not fold to [2**i - 1 for i in 0..n], n >= 64: %s' % _short(table))
         return rr
     fi = repo.method('BitStringBitReader', 'read_uint_or_none')
     FLIP = {'Lt': 'Gt', 'LtE': 'GtE', 'Gt': 'Lt', 'GtE': 'LtE', 'Eq': 'Eq', 'NotEq': 'NotEq', 'Is': 'Is', 'IsNot': 'IsNot'}
     HOLDS = {'Eq': lambda a, b: a == b, 'NotEq': lambda a, b: a != b, 'Lt': lambda a, b: a < b, 'LtE': lambda a, b: a <= b,
              'Gt': lambda a, b: a > b, 'GtE': lambda a, b: a >= b, 'Is': lambda a, b: a == b, 'IsNot': lambda a, b: a != b}
-    for n in range(0, 65):
+    # widths: Table B elements (with 201 / 207 changes) stay within 64 bits; a field skipped by 206YYY or an associated field of
+    # 204YYY is as wide as the 8-bit operand says: 0..255
+    for n in range(0, 256):
         it = ReaderInterp(repo, 'BitStringBitReader')
         res = it.run_function(fi, lambda: {'self': Obj('BitStringBitReader', {}), 'nbits': n}, self_class='BitStringBitReader')
         # every path: the comparisons of the raw field with constants it decided (with their outcome) and what it returns.  The raw
@@ -627,9 +629,12 @@ def rule_r7(repo):
                 bad = (raw, 'no path', want)
         if bad:
             rr.fail('BitReader.read_uint_or_none', fi.where,
-                    'for width %d a field of value %d reads as %s (expected %s); FM-94: missing iff width > 1 and all %d bits are ones' % (
-                        n, bad[0], bad[1], 'missing' if bad[2] is None else 'the value', n), witness={'nbits': n, 'raw': bad[0]})
-    rr.instance('BitReader.read_uint_or_none folded for widths 0..64')
+                    'for width %d a field of value %d reads as %s (expected %s); FM-94: missing iff width > 1 and all %d bits are ones%s' % (
+                        n, bad[0], bad[1], 'missing' if bad[2] is None else 'the value', n,
+                        ' (a width above 64 is reached through 206YYY / 204YYY, whose operand is 8 bits wide)' if n > 64 else ''), witness={'nbits': n, 'raw': bad[0]})
+            if n > 64:
+                break
+    rr.instance('BitReader.read_uint_or_none folded for widths 0..255')
     for m, want in sorted(READ_TABLE.items()):
         fi, recs, _ = run_primitive(repo, 'Decoder', m)
         longest = []
